@@ -73,6 +73,10 @@ CHECKS = {
         technique='grammar-based program generation (property-based testing over programs): generated auto_config modules are imported from scratch files; differential oracle plain Python run vs build(as_buildable()) by canonical form',
         text='A grammar produces module sources with helper auto_config functions and a target (function, closure with optionally re-bound captured variable, lambda, staticmethod, classmethod) over nested calls with positional/keyword/*splat/**splat arguments, variables (sharing), container displays, functools.partial (also of a partial held in a variable), arg_factory.partial, exempt, with_tags, builtins and, with the control-flow option, if/for/comprehensions/conditional expressions; the plain run, the decorated run and build(as_buildable(*args)) must agree in canonical form (values, types, sharing; partials behaviourally), as_buildable may invoke only exempted callables, and a fixed stream of unsupported constructs must raise UnsupportedLanguageConstructError.',
         note='Trusted: harness/gen/programs.py renderer, CPython as the reference semantics of the generated program, harness/canon.py. Programs outside the generated grammar are not covered.'),
+    'C12': dict(
+        technique='property-based per-output validation of generated programs: configuration x option point -> emitted module is imported from a scratch file and its fixture compared with the input by canonical form; value-to-expression round trip by eval',
+        text='For generated configurations (Config/Partial/ArgFactory, positional arguments, tags, shared nodes and containers, symbol/enum/bytes/complex/special-float leaves, tuple dict keys) and option points (new_codegen or auto_config_codegen, generated sub_fixtures, max_expression_complexity, include_history) plus two targeted scenarios (sub-fixture parameter/local name collision; variable named like a module that is only referenced by a leaf symbol), the generator must raise or emit text that compiles, imports and reproduces the configuration exactly; convert_py_val_to_cst output must eval to an equal value of the same type. Fourteen buckets from nine root causes in the code generators are listed known findings, each keyed by an input-feature predicate; cases with two such features are skipped.',
+        note='Trusted: harness/canon.py, feature predicates in props/c12.py, CPython import/exec of the emitted module.'),
 }
 
 PENDING = {}
